@@ -60,6 +60,21 @@ CLAIMED["C06"] = dict(
     note=NOTE + "Modelled, not verified: operand evaluation, escape parsing and Metacommand.compile_insn's cooking loop (exercised through the real parser/compiler); utf-8/latin-1 re-stated in Lean, koi8-r/cp866 taken from the stdlib as tables.",
 )
 
+CLAIMED["C01"] = dict(
+    text="Kernel-checked facts about all 252 entries of the regenerated table (decide +kernel over the whole table): the model of init() "
+         "re-derives every 16-symbol template and every operand stub; every stub addresses a contiguous field (bit i of the value on bit "
+         "shift+i); base opcode, field shift/width, operand class and operand order of every mnemonic equal the independent ISA table "
+         "(Spec/Isa.lean), synonyms and push/pop/ret/call through the instruction they stand for; canonical encodings are pairwise "
+         "disjoint. Tie: every mnemonic x every operand-form combination assembled by the real code, compared word for word with the "
+         "character-level model of get_opcode/compile_insn and decoded by the executable Lean Spec decoder (operation, operands, order, "
+         "values, length).",
+    design_ref="DESIGN.md §5 C01",
+    technique="Lean 4 theorems (decide +kernel over the complete regenerated opcode table against an independent ISA table) + exhaustive-by-form model/implementation correspondence + Spec decoder",
+    note=NOTE + "Spec/Isa.lean is hand-written from the DEC handbooks (non-DEC mnemonics adopted from the pinned implementation). The general "
+         "lemma 'character substitution = base + sum of shifted fields' and decode(encode)=id for all values are stage 2 (see DESIGN.md); "
+         "until then that step is covered by the exhaustive correspondence and the executed decoder, not by a theorem.",
+)
+
 PENDING_REASON = "check not built yet (build in progress; see DESIGN.md §8 for the order)"
 
 
